@@ -445,10 +445,19 @@ fn parse_command(
 			group.output_filename.is_none() &&
 			command.input_filenames.len() >= 1
 		{
-			group.output_filename = Some(derive_output_filename(
+			let derived_filename = derive_output_filename(
 				report,
 				group.format.unwrap(),
-				&command.input_filenames[0])?);
+				&command.input_filenames[0])?;
+
+			// Writing it must not destroy any of the other inputs either
+			if command.input_filenames.contains(&derived_filename)
+			{
+				report.error("cannot derive safe output filename");
+				return Err(());
+			}
+
+			group.output_filename = Some(derived_filename);
 		}
 	}
 
